@@ -16,6 +16,7 @@ pub static PROP: Prop = Prop {
     rule: "cases = (input, list incl. fitted lists, one of the 63 non-empty mode subsets with extra weight on singletons / sets without ASCII / complements of one mode, macro flag); oracle = every latch the mode-tracking reference decoder finds names an enabled mode, and with ASCII disabled ASCII-carried characters appear only as the standard's end-of-data fallback (last segment, <= 4 characters in <= 4 codewords, directly after a C40/Text/X12/EDIFACT latch or run, only padding behind); non-trivial = mode set != all AND stream has >= 1 latch; distinct by (input, configuration)",
     assumptions: &["pad, unlatch, macro, FNC1 and ECI codewords are not 'use of ASCII mode'", "the fallback rule is the widest reading of 'the final few characters': EDIFACT's <= 2 codewords (<= 4 digits), C40/Text rules c/d, and X12's 'unlatch and encode the remaining one or two characters in ASCII' (5.2.7.2; up to 4 codewords with upper shift)"],
     extra: super::no_extra,
+    fuzz_runs: 400000,
 };
 
 pub fn check(c: &EncCase) -> Verdict {
@@ -73,7 +74,7 @@ fn run(ctx: &Arc<Ctx>) {
     ctx.run_enumerated("fixed", "enc", fixed, None, check);
     let o = EncGenOpts { long_weight: if ctx.quick() { 1 } else { 2 }, allow_fnc1: false, ..Default::default() };
     // restricted mode sets are the point of this property: re-draw "all modes" cases as restricted ones
-    ctx.run_generated("generated", "enc", ctx.cases(40_000, 2_000_000), || {
+    ctx.run_generated("generated", "enc", ctx.cases(300_000, 3_000_000), || {
         use proptest::prelude::*;
         (g_enc_case(o), 1u8..=62).prop_map(|(mut c, m)| {
             if c.modes == 63 {
